@@ -89,6 +89,8 @@ def services_case(draw) -> dict[str, Any]:
     return {"kind": "services", "seed": seed, "params": params, "sessions": sessions, "skip": {str(k): v for k, v in skip.items()},
             "scan_response_ids": draw(st.booleans()), "check_session": True if fallback else draw(st.booleans()), "tester_present": draw(st.booleans()),
             "skip_redundant": draw(st.booleans()),
+            # probes (service id + n zero bytes) the ECU does not answer at all
+            "mute": draw(st.one_of(st.just([]), st.lists(st.tuples(st.sampled_from([0x10, 0x11, 0x14, 0x19, 0x22, 0x27, 0x2E, 0x31, 0x85]), st.sampled_from([1, 2, 3])).map(list), max_size=4))),
             # the ECU falls back to the default session after it has finished answering the probes of these service ids
             "drop": draw(drop_s) if fallback else []}
 
@@ -176,9 +178,14 @@ def check_services(case: dict[str, Any]) -> list[tuple[str, str]]:
             if terminal:
                 srv.state.session = 1
 
-    r = run_scanner(ServicesScanner, cfg, server, budget=60000, after_reply=after_reply if drop else None)
+    mute = {(a, b) for a, b in case.get("mute") or []}
+
+    def is_muted(data: bytes) -> bool:
+        return (data[0], len(data) - 1) in mute and data[1:] == bytes(len(data) - 1)
+
+    r = run_scanner(ServicesScanner, cfg, server, budget=60000, after_reply=after_reply if drop else None, mute=is_muted if mute else None)
     ctx = (f"services seed={case['seed']} params={case['params']} sessions={case['sessions']} skip={skip} response_ids={case['scan_response_ids']} "
-           f"check_session={case['check_session']} ecu-falls-back-after={sorted(hex(x) for x in drop)}")
+           f"check_session={case['check_session']} ecu-falls-back-after={sorted(hex(x) for x in drop)} silent-on={sorted(mute)}")
     if r["status"] != "ok":
         return [(f"C10/services/run-{r['status']}", f"{ctx}: {r['val']!r}")]
     rc = r["box"].get("rc")
@@ -203,8 +210,8 @@ def check_services(case: dict[str, Any]) -> list[tuple[str, str]]:
             if case["sessions"] is not None and key in skip and (sk is None or sid in sk):
                 continue
             probes = [bytes([sid]) + bytes(n) for n in (1, 2, 3, 5)]
-            for rep in clone_answers(case["seed"], case["params"], sess, probes):
-                if rep is None:
+            for n_, rep in zip((1, 2, 3, 5), clone_answers(case["seed"], case["params"], sess, probes)):
+                if rep is None or (sid, n_) in mute:
                     continue
                 if rep[0] == 0x7F and len(rep) == 3 and rep[2] in NOT_SUPPORTED:
                     break
